@@ -8,6 +8,7 @@ mod enc;
 mod iv;
 mod conf;
 mod accum;
+mod prod;
 #[cfg(feature = "serde")]
 mod serde_ops;
 
@@ -43,6 +44,8 @@ fn dispatch(case: &Value) -> Vec<Value> {
         conf::run(case)
     } else if op.starts_with("accum.") {
         accum::run(case)
+    } else if op.starts_with("mean.") || op.starts_with("prop.") || op.starts_with("quant.") {
+        prod::run(case)
     } else if op.starts_with("serde.") {
         #[cfg(feature = "serde")]
         { serde_ops::run(case) }
@@ -59,7 +62,9 @@ fn main() {
         eprintln!("usage: verif-harness replay <cases.ndjson> <trace.ndjson>");
         std::process::exit(2);
     }
-    silent_panics();
+    if std::env::var("HARNESS_VERBOSE").is_err() {
+        silent_panics();
+    }
     let input = std::fs::File::open(&args[2]).expect("open cases");
     let out = std::fs::File::create(&args[3]).expect("create trace");
     let mut w = BufWriter::new(out);
